@@ -67,6 +67,42 @@ macro "unfold_step" h:ident : tactic =>
       bcReturn, subCall, subAcquire, subReturn, cancel, fwdTake, fwdDeliver, fwdExitCtx, fwdExitClose,
       fwdCloseExit, fwdRemove, closeCall, closeCas, closeChClose, closePass, closeReturn, setSub] at $h:ident)
 
+/-! ### `unlist` touches nothing but one `inList` flag -/
+
+theorem unlist_eq (s : State) (t : Option Nat) :
+    unlist s t = s ∨ ∃ j w, s.subs[j]? = some w ∧ unlist s t = setSub s j { w with inList := false } := by
+  cases t with
+  | none => exact Or.inl rfl
+  | some j =>
+    cases hw : s.subs[j]? with
+    | none => left; simp [unlist, hw]
+    | some w => right; exact ⟨j, w, hw, by simp [unlist, hw]⟩
+
+@[simp] theorem unlist_bc (s t) : (unlist s t).bc = s.bc := by
+  rcases unlist_eq s t with h | ⟨_, _, _, h⟩ <;> rw [h] <;> rfl
+@[simp] theorem unlist_closed (s t) : (unlist s t).closed = s.closed := by
+  rcases unlist_eq s t with h | ⟨_, _, _, h⟩ <;> rw [h] <;> rfl
+@[simp] theorem unlist_closeCh (s t) : (unlist s t).closeCh = s.closeCh := by
+  rcases unlist_eq s t with h | ⟨_, _, _, h⟩ <;> rw [h] <;> rfl
+@[simp] theorem unlist_log (s t) : (unlist s t).log = s.log := by
+  rcases unlist_eq s t with h | ⟨_, _, _, h⟩ <;> rw [h] <;> rfl
+@[simp] theorem unlist_waitB (s t) : (unlist s t).waitB = s.waitB := by
+  rcases unlist_eq s t with h | ⟨_, _, _, h⟩ <;> rw [h] <;> rfl
+@[simp] theorem unlist_retB (s t) : (unlist s t).retB = s.retB := by
+  rcases unlist_eq s t with h | ⟨_, _, _, h⟩ <;> rw [h] <;> rfl
+@[simp] theorem unlist_returnedT (s t) : (unlist s t).returnedT = s.returnedT := by
+  rcases unlist_eq s t with h | ⟨_, _, _, h⟩ <;> rw [h] <;> rfl
+@[simp] theorem unlist_nextTicket (s t) : (unlist s t).nextTicket = s.nextTicket := by
+  rcases unlist_eq s t with h | ⟨_, _, _, h⟩ <;> rw [h] <;> rfl
+@[simp] theorem unlist_closeNew (s t) : (unlist s t).closeNew = s.closeNew := by
+  rcases unlist_eq s t with h | ⟨_, _, _, h⟩ <;> rw [h] <;> rfl
+@[simp] theorem unlist_closePre (s t) : (unlist s t).closePre = s.closePre := by
+  rcases unlist_eq s t with h | ⟨_, _, _, h⟩ <;> rw [h] <;> rfl
+@[simp] theorem unlist_closePost (s t) : (unlist s t).closePost = s.closePost := by
+  rcases unlist_eq s t with h | ⟨_, _, _, h⟩ <;> rw [h] <;> rfl
+@[simp] theorem unlist_closeReturned (s t) : (unlist s t).closeReturned = s.closeReturned := by
+  rcases unlist_eq s t with h | ⟨_, _, _, h⟩ <;> rw [h] <;> rfl
+
 /-! ### Close bookkeeping -/
 
 structure CInv (v : Variant) (s : State) : Prop where
@@ -417,8 +453,8 @@ theorem SubWF.remove {log bc cc cl i u} (h : SubWF log bc cc cl i u) (hpc : u.pc
   · intro hc; simp at hc
   · exact h.bufLen
 
-theorem SubWF.new (log : List Entry) (cc cl : Bool) (i h : Nat) :
-    SubWF log none cc cl i (Sub.new h log.length) := by
+theorem SubWF.new (log : List Entry) (cc cl : Bool) (i id h : Nat) :
+    SubWF log none cc cl i (Sub.new id h log.length) := by
   constructor <;> simp [Sub.new, Sub.seq, pendOf, inLoop, bufferSize]
 
 /-! ### state-level preservation, by shape of the update -/
@@ -501,8 +537,8 @@ theorem WF.finish {s s' : State} {e : Entry} {pc : Nat} (h : WF s) (hbc : s.bc =
     rw [hbc] at this
     exact this.finish (by omega)
 
-theorem WF.newSub {s s' : State} {t : Nat} (h : WF s) (hbc : s.bc = none)
-    (h1 : s'.subs = s.subs ++ [Sub.new t s.log.length]) (h2 : s'.log = s.log)
+theorem WF.newSub {s s' : State} {t id : Nat} (h : WF s) (hbc : s.bc = none)
+    (h1 : s'.subs = s.subs ++ [Sub.new id t s.log.length]) (h2 : s'.log = s.log)
     (h3 : s'.bc = s.bc) (h4 : s'.closeCh = s.closeCh) (h5 : s'.closed = s.closed) : WF s' := by
   constructor
   · rw [h2, h3]; exact h.bcLast
@@ -511,17 +547,67 @@ theorem WF.newSub {s s' : State} {t : Nat} (h : WF s) (hbc : s.bc = none)
   · rw [h1, h2, h3, h4, h5]
     intro i u hi
     rcases getElem?_append_one_cases hi with ⟨_, rfl⟩ | ⟨_, hi'⟩
-    · rw [hbc]; exact SubWF.new _ _ _ _ _
+    · rw [hbc]; exact SubWF.new _ _ _ _ _ _
     · exact h.subs i u hi'
 
 theorem wf_init : WF init := by
   constructor <;> simp [init]
 
+/-! ### subscriber ids: fresh from a counter, never reused -/
+
+/-- The id of the subscriber in slot `i` is `i` (ids are handed out by the counter `currentID`,
+which is incremented at every subscribe and never decremented). -/
+structure IdInv (s : State) : Prop where
+  cur : s.currentID = s.subs.length
+  ids : ∀ (i : Nat) (u : Sub), s.subs[i]? = some u → u.id = i
+
+theorem idinv_init : IdInv init := by constructor <;> simp [init]
+
+/-- With fresh ids the removal loop finds the forwarder's own entry. -/
+theorem removeTarget_eq {s : State} (hid : IdInv s) {i : Nat} {u : Sub}
+    (hu : s.subs[i]? = some u) (hin : u.inList = true) : removeTarget s u.id = some i := by
+  have hlt : i < s.subs.length := (List.getElem?_eq_some_iff.mp hu).1
+  have hget : s.subs[i] = u := (List.getElem?_eq_some_iff.mp hu).2
+  unfold removeTarget
+  rw [List.findIdx?_eq_some_iff_getElem]
+  refine ⟨hlt, ?_, ?_⟩
+  · simp [hget, hin]
+  · intro j hj
+    have hjl : j < s.subs.length := by omega
+    have h1 := hid.ids j s.subs[j] (List.getElem?_eq_getElem hjl)
+    have h2 := hid.ids i u hu
+    simp [h1, h2]
+    intro _; omega
+
+/-- Under the invariants, `fwdRemove` removes exactly the leaver's own entry. -/
+theorem fwdRemove_spec {s s' : State} {i : Nat} (hw : WF s) (hid : IdInv s)
+    (hs : fwdRemove s i = some s') :
+    ∃ u, s.subs[i]? = some u ∧ u.pc = .wantLock ∧ s.bc = none ∧
+      s' = setSub s i { u with inList := false, pc := .done } := by
+  unfold fwdRemove at hs
+  split at hs
+  · next u hu =>
+    split at hs
+    · next hg =>
+      have hin : u.inList = true := by
+        cases h : u.inList with
+        | true => rfl
+        | false => have := (hw.subs i u hu).listPc.mp h; simp [hg.1] at this
+      rw [if_pos (removeTarget_eq hid hu hin)] at hs
+      simp at hs
+      exact ⟨u, hu, hg.1, hg.2, hs.symm⟩
+    · simp at hs
+  · simp at hs
+
 theorem lt_of_getElem? {α} {l : List α} {i : Nat} {a : α} (h : l[i]? = some a) : i < l.length :=
   (List.getElem?_eq_some_iff.mp h).1
 
-theorem wf_step {v s l s'} (h : WF s) (hs : step v s l = some s') : WF s' := by
-  cases l <;> unfold_step hs
+theorem wf_step {v s l s'} (h : WF s) (hid : IdInv s) (hs : step v s l = some s') : WF s' := by
+  cases l
+  case fwdRemove i =>
+    obtain ⟨u, hu, hpc, _, rfl⟩ := fwdRemove_spec h hid (by simpa [step] using hs)
+    exact h.setSub ((h.subs i u hu).remove hpc) rfl rfl rfl rfl rfl
+  all_goals unfold_step hs
   case bcCall x => simp at hs; subst hs; exact h.frame rfl rfl rfl rfl rfl
   case bcAcquire k =>
     split at hs
@@ -652,14 +738,6 @@ theorem wf_step {v s l s'} (h : WF s) (hs : step v s l = some s') : WF s' := by
       subst hs
       exact h.setSub ((h.subs i u hu).closeExit hg) rfl rfl rfl rfl rfl
     · simp at hs
-  case fwdRemove i =>
-    split at hs
-    · next u hu =>
-      split at hs <;> simp at hs
-      next hg =>
-      subst hs
-      exact h.setSub ((h.subs i u hu).remove hg.1) rfl rfl rfl rfl rfl
-    · simp at hs
   case closeCall => simp at hs; subst hs; exact h.frame rfl rfl rfl rfl rfl
   case closeCas =>
     split at hs
@@ -692,10 +770,21 @@ theorem allDone_iff (s : State) : allDone s = true ↔ AllDone s := by
     obtain ⟨i, hi, rfl⟩ := List.getElem_of_mem hu
     exact h i _ (List.getElem?_eq_getElem hi)
 
-theorem done_step {v s l s'} (hci : CInv v s) (hs : step v s l = some s')
+theorem done_step {v s l s'} (hw : WF s) (hid : IdInv s) (hci : CInv v s)
+    (hs : step v s l = some s')
     (h : 0 < s.closeReturned → s.closed = true ∧ AllDone s) :
     0 < s'.closeReturned → s'.closed = true ∧ AllDone s' := by
-  cases l <;> unfold_step hs <;> (repeat' split at hs) <;> (try simp at hs) <;> (try subst hs) <;>
+  cases l
+  case fwdRemove i =>
+    obtain ⟨u, hu, hpc, _, rfl⟩ := fwdRemove_spec hw hid (by simpa [step] using hs)
+    intro hr
+    obtain ⟨hc, hd⟩ := h hr
+    refine ⟨hc, ?_⟩
+    intro k w hk
+    rcases getElem?_set_cases hk with ⟨rfl, rfl⟩ | ⟨_, hk'⟩
+    · rfl
+    · exact hd _ _ hk'
+  all_goals unfold_step hs <;> (repeat' split at hs) <;> (try simp at hs) <;> (try subst hs) <;>
     simp only [AllDone] at h ⊢ <;> intro hr
   all_goals try (
     have hr0 : 0 < s.closeReturned := by first | exact hr | fail
@@ -714,17 +803,54 @@ theorem done_step {v s l s'} (hci : CInv v s) (hs : step v s l = some s')
     next hg =>
     exact ⟨hci.post_closed (by omega), (allDone_iff s).mp hg.2⟩
 
+theorem idinv_step {v s l s'} (hw : WF s) (hid : IdInv s) (hs : step v s l = some s') :
+    IdInv s' := by
+  cases l
+  case fwdRemove i =>
+    obtain ⟨u, hu, hpc, _, rfl⟩ := fwdRemove_spec hw hid (by simpa [step] using hs)
+    refine ⟨by simpa [setSub] using hid.cur, ?_⟩
+    intro k w hk
+    rcases getElem?_set_cases hk with ⟨rfl, rfl⟩ | ⟨_, hk'⟩
+    · exact hid.ids _ u hu
+    · exact hid.ids _ _ hk'
+  case subAcquire k =>
+    unfold_step hs
+    split at hs
+    · next t hbc hk =>
+      split at hs <;> simp at hs <;> subst hs
+      · exact ⟨hid.cur, hid.ids⟩
+      · refine ⟨by simp [hid.cur], ?_⟩
+        intro j w hj
+        rcases getElem?_append_one_cases hj with ⟨rfl, rfl⟩ | ⟨_, hj'⟩
+        · simp [Sub.new, hid.cur]
+        · exact hid.ids _ _ hj'
+    · simp at hs
+  all_goals
+    unfold_step hs <;> (repeat' split at hs) <;> (try simp at hs) <;> (try subst hs) <;>
+    first
+    | exact ⟨hid.cur, hid.ids⟩
+    | (refine ⟨by simpa using hid.cur, ?_⟩
+       intro j w hj
+       rcases getElem?_set_cases hj with ⟨rfl, rfl⟩ | ⟨_, hj'⟩
+       · have h1 := hid.ids j _ (by assumption)
+         exact h1
+       · exact hid.ids _ _ hj')
+
+theorem wfid_reach {v : Variant} : ∀ s, Reach v s → WF s ∧ IdInv s :=
+  inv_of_inductive (fun s => WF s ∧ IdInv s) ⟨wf_init, idinv_init⟩
+    (fun _ _ _ _ h hs => ⟨wf_step h.1 h.2 hs, idinv_step h.1 h.2 hs⟩)
+
+theorem wf_reach {v : Variant} (s : State) (hr : Reach v s) : WF s := (wfid_reach s hr).1
+
+theorem idinv_reach {v : Variant} (s : State) (hr : Reach v s) : IdInv s := (wfid_reach s hr).2
+
+theorem cinv_reach {v : Variant} : ∀ s, Reach v s → CInv v s :=
+  inv_of_inductive (CInv v) (cinv_init v) (fun _ _ _ _ h hs => cinv_step h hs)
+
 theorem done_reach {v : Variant} : ∀ s, Reach v s →
     (0 < s.closeReturned → s.closed = true ∧ AllDone s) :=
   inv_of_inductive (fun s => 0 < s.closeReturned → s.closed = true ∧ AllDone s)
     (by simp [init])
-    (fun _ _ _ hr h hs => done_step (inv_of_inductive (CInv v) (cinv_init v)
-      (fun _ _ _ _ h hs => cinv_step h hs) _ hr) hs h)
-
-theorem wf_reach {v : Variant} : ∀ s, Reach v s → WF s :=
-  inv_of_inductive WF wf_init (fun _ _ _ _ h hs => wf_step h hs)
-
-theorem cinv_reach {v : Variant} : ∀ s, Reach v s → CInv v s :=
-  inv_of_inductive (CInv v) (cinv_init v) (fun _ _ _ _ h hs => cinv_step h hs)
+    (fun s _ _ hr h hs => done_step (wf_reach s hr) (idinv_reach s hr) (cinv_reach s hr) hs h)
 
 end Kit.Broadcaster
